@@ -4,7 +4,9 @@ import (
 	"fmt"
 	"go/token"
 	"go/types"
+	"regexp"
 	"sort"
+	"strconv"
 	"strings"
 
 	"golang.org/x/tools/go/ssa"
@@ -375,9 +377,19 @@ func ruleC10(r *Report) {
 				}
 				prim := ""
 				hashOK := true
+				other := ""
 				for _, b := range fn.Blocks {
 					for _, in := range b.Instrs {
+						// every use of crypto/rsa in the function is the prescribed primitive: a second one on some path (the
+						// generic (*rsa.PrivateKey).Decrypt with options built here, another padding as a fallback) wraps or
+						// unwraps with parameters the identifier does not denote
+						if c, ok := in.(*ssa.Call); ok && c.Call.StaticCallee() != nil && strings.Contains(c.Call.StaticCallee().String(), "crypto/rsa.") && !strings.HasPrefix(c.Call.StaticCallee().String(), "crypto/rsa.") {
+							other = c.Call.StaticCallee().String() + " at " + p.InstrPos(c)
+						}
 						if c, ok := in.(*ssa.Call); ok && c.Call.StaticCallee() != nil && strings.HasPrefix(c.Call.StaticCallee().String(), "crypto/rsa.") {
+							if prim != "" && prim != c.Call.StaticCallee().String() {
+								other = c.Call.StaticCallee().String() + " at " + p.InstrPos(c)
+							}
 							prim = c.Call.StaticCallee().String()
 							if strings.HasSuffix(prim, "OAEP") {
 								an := NewAnalysis(p)
@@ -390,11 +402,13 @@ func ruleC10(r *Report) {
 					}
 				}
 				r.Check(prim == want[i] && hashOK, "C10.params", c2, p.Pos(fn.Pos()), prim, fmt.Sprintf("uses %s (hash from DigestMethod: %v); the identifier prescribes %s with the configured digest", prim, hashOK, want[i]))
+				r.Check(other == "", "C10.params", c2+" (no other RSA operation)", p.Pos(fn.Pos()), "the prescribed primitive is the only crypto/rsa call", "besides "+want[i]+" the function also calls "+other+": on that path the key is (un)wrapped with parameters the identifier does not denote (the two sides of the package, and other implementations, then disagree)")
 			}
 		}
 	}
 
 	checkC10Framing(r, p)
+	safely(r, func() { checkLengthGates(r, p, "C10.framing") })
 	safely(r, func() { checkPadding(r, NewAnalysis(p), sc, "C10.padding", true) })
 	checkC10Digest(r, p)
 	safely(r, func() { checkAEADPlain(r, p, sc, "C10.aead-plain") })
@@ -935,3 +949,45 @@ func digestParamHash(p *Prog, fn *ssa.Function, fld string, hash ssa.Value) bool
 	}
 	return n > 0
 }
+
+// checkLengthGates: C10.framing, length part. One Decrypt implementation serves every block cipher of its mode (AES and
+// 3DES share CBC), so a condition that rejects on the cipher value's length has to be stated in the cipher's own block
+// (or nonce) size. A length of the cipher value compared with, or reduced modulo, a numeric constant greater than one is
+// a gate that is right for at most one of the ciphers behind the type: conforming ciphertexts of the others are refused.
+func checkLengthGates(r *Report, p *Prog, rule string) {
+	for _, tn := range []string{"CBC", "GCM"} {
+		dec := p.MustFunc("xmlenc", tn, "Decrypt")
+		for _, f := range helperRegion(p, dec, 2) {
+			a := NewAnalysis(p)
+			fc := a.Ctx(f)
+			fc.ensureConds()
+			rej := fc.NotAcceptFormula()
+			var bad []string
+			for _, nm := range a.B.Support(rej) {
+				ai := a.Atoms[nm]
+				if ai == nil || ai.Fn != f || (ai.Kind != "lt" && ai.Kind != "eq") {
+					continue
+				}
+				onLen, fixed := false, false
+				for _, arg := range ai.Args {
+					if strings.Contains(arg, "len(") && (strings.Contains(arg, "getCiphertext") || strings.Contains(arg, "CipherValue") || strings.Contains(arg, "DecodeString")) {
+						onLen = true
+					}
+					for _, m := range constTokenRe.FindAllStringSubmatch(arg, -1) {
+						if k, err := strconv.Atoi(m[1]); err == nil && k > 1 {
+							fixed = true
+						}
+					}
+				}
+				if onLen && fixed {
+					bad = append(bad, nm)
+				}
+			}
+			sort.Strings(bad)
+			cons := fmt.Sprintf("%s: length conditions on the cipher value are stated in the cipher's block/nonce size", p.FnName(f))
+			r.Check(len(bad) == 0, rule, cons, p.Pos(f.Pos()), "no reject condition compares the cipher value's length with a numeric constant", "the cipher value's length is tested against a fixed number ("+strings.Join(bad, ", ")+"): the same code decrypts ciphers with 8- and 16-byte blocks, so conforming short ciphertexts of one of them are refused")
+		}
+	}
+}
+
+var constTokenRe = regexp.MustCompile(`c:(\d+)`)
